@@ -9,6 +9,7 @@ FIELDS = {}        # attribute name or (Class, attribute) -> kind
 THEORIES = {}      # name -> fn(eng, st) -> list of z3 axioms
 SPECFNS = {}       # name -> fn(eng, st, *args) -> V
 CLASS_INV = {}     # class name -> list of clause strings over 'self'
+EXT_CLASSES = {}   # class name outside the package -> (module, set of method names): methods are used through ext:<module>.<Class>.<name> contracts
 FIELD_VIEWS = {}   # theory name -> {attribute: fn(eng, st, ref term) -> V}  (sound under the theory's axioms)
 
 
@@ -83,6 +84,10 @@ def fields(**kw):
 def class_fields(cls, **kw):
     for k, v in kw.items():
         FIELDS[(cls, k)] = v
+
+
+def ext_class(name, module, methods):
+    EXT_CLASSES[name] = (module, set(methods))
 
 
 def theory(name):
